@@ -6,6 +6,7 @@ import uuid
 from hypothesis import strategies as st
 
 from vlib import gen, ops
+from vlib import interp as interp_mod
 from vlib.interp import CONTAINER, LINK_ROLES, Interp
 
 ID = "C03"
@@ -217,6 +218,41 @@ def checkpoint(it, ctx, case, where):
             members = [(c.name, c.id) for c in lst]
             check_container(ctx, case, where, "%s.%s(links)" % (e.kind, role), cont, members,
                             ordered=role not in e.info.get("relinked", ()), cls=cls)
+            # a handle obtained THROUGH the link list denotes a member of the container that owns the entity:
+            # membership does not depend on the path the handle came from
+            try:
+                via = list(cont)
+            except Exception:  # noqa (reported above)
+                via = []
+            for m, c in zip(via, lst):
+                if m.id != c.id or not c.alive:
+                    continue
+                try:
+                    owner = it.container_of(c)
+                    ok = m in owner
+                except Exception as exc:  # noqa
+                    ctx.violation("C03/contains-entity-obtained-through-link/%s" % cls, case,
+                                  {"link": "%s.%s" % (e.kind, role), "member": c.path()[:100], "raised": type(exc).__name__,
+                                   "where": where})
+                    continue
+                ctx.count("membership-of-a-handle-obtained-through-a-link")
+                if not ok:
+                    ctx.violation("C03/contains-entity-obtained-through-link/%s" % cls, case,
+                                  {"link": "%s.%s" % (e.kind, role), "member": c.path()[:100], "got": False, "where": where})
+        if e is not it.root and e.kind in interp_mod.META_KINDS:
+            tgt = e.single.get("metadata")
+            if tgt is not None and tgt != "dangling" and getattr(tgt, "alive", False):
+                try:
+                    mh = h.metadata
+                    if mh is not None and mh.id == tgt.id:
+                        ctx.count("membership-of-a-handle-obtained-through-a-link")
+                        if mh not in it.container_of(tgt):
+                            ctx.violation("C03/contains-entity-obtained-through-link/%s" % cls, case,
+                                          {"link": "%s.metadata" % e.kind, "member": tgt.path()[:100], "got": False,
+                                           "where": where})
+                except Exception as exc:  # noqa
+                    ctx.violation("C03/contains-entity-obtained-through-link/%s" % cls, case,
+                                  {"link": "%s.metadata" % e.kind, "raised": type(exc).__name__, "where": where})
 
 
 def _chain(e):
